@@ -72,6 +72,10 @@ func NewFakeIdP() *FakeIdP {
 		if ans.Reset {
 			if hj, ok := w.(http.Hijacker); ok {
 				if conn, _, err := hj.Hijack(); err == nil {
+					// a few bytes of a status line, then the connection dies: net/http reports a transport
+					// error and — because bytes did arrive — never retries transparently, whether or not the
+					// connection had been reused (a bare reset is retried only on reused connections)
+					io.WriteString(conn, "HTTP/1.1 ")
 					if tc, ok := conn.(*net.TCPConn); ok {
 						tc.SetLinger(0)
 					}
@@ -84,7 +88,6 @@ func NewFakeIdP() *FakeIdP {
 		w.WriteHeader(ans.Status)
 		io.WriteString(w, ans.Body)
 	}))
-	f.Server.Config.SetKeepAlivesEnabled(false)
 	f.Server.StartTLS()
 	// make the providers' private http client trust the test certificate: the system pool is read
 	// lazily from SSL_CERT_FILE at the first verification
